@@ -299,6 +299,24 @@ func TestUtil(t *testing.T) {
 	})
 }
 
+// TestReadOnlyConstructs converts the construct-adjacency documents from read-only memory.
+func TestReadOnlyConstructs(t *testing.T) {
+	cfgs := []gen.Config{{}, {GFM: true, DefList: true, Footnote: true, Typo: true, CJK: 1, AutoID: true, Attr: true, Unsafe: true}}
+	n := gen.EnumConstructDocs(kit.Thorough(), func(idx int, doc []byte) {
+		if !kit.Mine(idx) {
+			return
+		}
+		for _, cfg := range cfgs {
+			c := kit.NewCase("readonly", cfg.String()).B("src", doc).I("off", int64(idx%7)).I("spare", int64(idx%3))
+			lastTransforming = false
+			if kit.Check(t, c) && lastTransforming {
+				kit.R.NonTrivial(c)
+			}
+		}
+	})
+	kit.R.Note("exhaustive_constructs", n)
+}
+
 func FuzzReadOnly(f *testing.F) {
 	for _, e := range gen.Spec() {
 		f.Add(uint16(0), []byte(e.Markdown))
